@@ -221,6 +221,19 @@ func genTree(t *Tape, o TreeOpts) *TreeCase {
 			toks = levelTpls[tpl].valid(t)
 			if t.Draw(3) == 0 {
 				c.LongDesc = "long description of level " + strconv.Itoa(lvl)
+				if o.Fancy && t.Draw(3) == 0 {
+					// as written in an indented raw string: indented lines, a blank line holding fewer blanks than
+					// the indentation, a closing quote on a line of its own
+					c.LongDesc = []string{"\n    " + c.LongDesc + "\n \n    second paragraph\n  ", "\t" + c.LongDesc + "\n\n\tmore\n", "  " + c.LongDesc + "\n \n  more"}[t.Draw(3)]
+				}
+			}
+			if o.Fancy && t.Draw(6) == 0 {
+				// an EnvVar string of white space only names no variable (arguments and options alike)
+				for _, d := range c.Decls {
+					if len(d.EnvVars) == 0 && t.Draw(2) == 0 {
+						d.BlankEnv = []string{" ", "\t ", "  "}[t.Draw(3)]
+					}
+				}
 			}
 		}
 		c.Before = cb(t, lvl, "before", true)
